@@ -132,6 +132,17 @@ CHECKS = {
              "the Exception state are left free; the state after the fault is the time-before of the following transition. Unbounded persistent faults (a handler that panics for ever) are not cases.",
         technique="fault injection at every enumerated handler position (panic / stall) with post-fault oracle and liveness probe; crash and hang attribution per case",
         engine="faults", design_ref="5/C08"),
+    "C10": dict(
+        level="exploration",
+        text="One live Server+Client pair per configuration (1..3 states quick / 1..4 thorough; all | every allow-list | every skip-list; schema-synced | schema-less; deep | shallow | per-mutation) "
+             "with pushes disabled. For every vector of per-state tick deltas 0..4 (exhaustive, two passes so that all start parities occur) the source performs the real toggles, the server's "
+             "production encoder derives the update against the last pushed snapshot and the client's production decoder + checksum applies it (verif-tagged accessors); the mirror must equal the "
+             "source on every synchronised state (parity for shallow) with the right queue and machine ticks. Drift: the mirror is advanced by k ticks (k mod 256 != 0) through a self-consistent fake "
+             "message and the next real update must be rejected, then a full Sync must restore equality. Boundary samples: queue-tick gaps around 2^16, tick deltas around 2^16 and 2^32, machine-tick "
+             "diffs via Import, per-mutation chains, sources with history before the handshake.",
+        note="Exhaustive over the stated delta vectors and configurations by execution; boundary values sampled. Two protocol field-width limits (uint16 queue-tick diff, uint32 tick diff) are known findings.",
+        technique="runtime differential: production encoder -> production decoder on a live pair, mirror vs source oracle, planted-drift rejection test",
+        engine="rpcloop", design_ref="5/C10"),
     "C11": dict(
         level="exploration",
         text="Each generated (schema rich in Auto/mutual-Remove/Add-fan/independent-Require structure, static veto table, history) case is executed on 64 fresh "
@@ -201,6 +212,8 @@ man = {
          "kind_free_text": "gates/yields at verif schedule points, client-boundary histories, porcupine model, quiescence and stable-block (goroutine dump) classifier"},
         {"name": "faults", "path": "harness/cmd/c08", "serves_properties": ["C08"],
          "kind_free_text": "handler-position enumeration + fault scripts (panic, acknowledged stall, deadline stall, repeated and nested faults), liveness probe"},
+        {"name": "rpcloop", "path": "harness/rpcloop", "serves_properties": ["C09", "C10", "C18"],
+         "kind_free_text": "live Server+Client pairs over a harness-controlled loopback proxy (byte counters, cut, stall, refuse), verif-tagged encoder/decoder accessors"},
         {"name": "registry", "path": "harness/{registry,cmd/c19gen}", "serves_properties": ["C19", "C20"],
          "kind_free_text": "static scan of /repo -> generated Go registry of shipped schemas; BFS/cone explorer"},
     ],
